@@ -54,7 +54,8 @@ pub fn run(args: &Args, rep: &mut Report) {
     let mut st = State { secp: Secp256k1::new(), key_words: HashMap::new(), sig_words: HashMap::new() };
     for _ in 0..budget.max(1) {
         let sk = gen_sk(&mut r);
-        let np = r.below(5);
+        // mostly a handful of predicates; now and then as many as a contract may hold
+        let np = if r.chance(0.004) { *r.pick(&[64usize, 99, 100]) } else { r.below(5) };
         let mut contract = Contract { predicates: (0..np).map(|_| crate::formats::gen_predicate(&mut r, false)).collect(), salt: if r.chance(0.2) { [0; 32] } else { r.bytes32() } };
         if np >= 1 && r.chance(0.25) {
             // a contract is a multiset of predicates: repeat one
@@ -182,7 +183,9 @@ fn one_case(r: &mut Rng, rep: &mut Report, st: &mut State, sk: &SecretKey, contr
             match catch(|| (sc::recover(&t), sc::verify(&t), essential_check::predicate::check_signed_contract(&t))) {
                 Err(p) => rep.violation("C19", "panic", format!("malformed signature {} caused a panic: {p}", t.signature), case("malformed")),
                 Ok((rec, ver, chk)) => {
-                    if rec.is_ok() != ver.is_ok() || (chk.is_ok() != rec.is_ok()) {
+                    // check_signed_contract additionally validates the contract's size limits
+                    let within_limits = t.contract.predicates.len() <= 100 && t.contract.predicates.iter().all(|p| p.nodes.len() <= 1000 && p.edges.len() <= 1000);
+                    if rec.is_ok() != ver.is_ok() || (chk.is_ok() != (rec.is_ok() && within_limits)) {
                         rep.violation("C19", "inconsistent", format!("recover ok={}, verify ok={}, check_signed_contract ok={} for signature {}", rec.is_ok(), ver.is_ok(), chk.is_ok(), t.signature), case("malformed"));
                     }
                     if t.signature.1 > 3 && rec.is_ok() {
